@@ -91,6 +91,17 @@ def make_tamper(alter, plan, state: dict):
         return rpce.build_response(rpce.ndr64_getkey_response(env, hr), ctx_id=0, call_id=pdu["call_id"] if pdu else 1)
 
     def tamper(conn, idx, data):
+        if kind == "connect-flap":
+            # (the connection fault itself is injected by the world, see run()); whoever answers an *unauthenticated* request
+            # on the key service port is the adversary: it replaces the DC's fault / reply with its own cleartext Response
+            if conn.port == 135 or len(data) < 16:
+                return None
+            if data[2] in (rpce.RESPONSE, rpce.FAULT):
+                reqs = [r for r in rpce.split_stream(bytearray(b"".join(conn.tx_log))) if r[2] == rpce.REQUEST]
+                if reqs and not struct.unpack("<H", reqs[-1][10:12])[0]:
+                    state["answered_cleartext_request"] = True
+                    return adv_response(conn, None)
+            return None
         if kind == "mitm-handshake":
             # the adversary removes the security trailer from the server's handshake PDUs (auth_len 0), so that the client's
             # security context is never fed the server's token, and answers whatever follows with its own cleartext Response
@@ -397,6 +408,23 @@ def run(case) -> dict:
             super().__init__(*a, **kw)
             self.tampers = Tampers()
 
+    if alter[0] == "connect-flap":
+        class AdvWorld(orig_world):  # noqa: F811 - additionally: the first connect to the key service port fails once
+            def __init__(self, *a, **kw):
+                super().__init__(*a, **kw)
+                self.tampers = Tampers()
+                self._flapped = False
+
+            def _lookup(self, host, port):
+                if port != 135 and not self._flapped:
+                    self._flapped = True
+                    self.connect_attempts.append((host, port))
+                    self.log("net.connect", host, port)
+                    self.stats["noconn"] += 1
+                    state["applied"] = True
+                    return None
+                return super()._lookup(host, port)
+
     planmod.W.World = AdvWorld
     try:
         tr = P.execute_plan(plan)
@@ -413,10 +441,18 @@ def run(case) -> dict:
     adv_rk = adv_root_key(plan["root_keys"][0])
 
     def V(cond, detail):
-        what = alter[0] + ("-" + str(alter[1]) if alter[0] in ("strip", "lenfix", "mitm-handshake", "fragment") else "")
+        what = alter[0] + ("-" + str(alter[1]) if alter[0] in ("strip", "lenfix", "mitm-handshake", "fragment", "connect-flap") else "")
         return common.violation("C16", what, fl, cond, opname, "",
                                 f"{detail}; alteration={alter} ctx={ctxname} op={opname} outcome={out.brief()} {out.exc!r}")
 
+    signed_region = False
+    if alter[0] == "flip" and CTXS[ctxname][1]:
+        n = len(base["resp"])
+        tro = n - base["pdu"]["auth_len"] - 8
+        byte = alter[1] // 8
+        # PDU header (24 bytes incl. the response fields) and the 8-byte security trailer are covered by the signature when header
+        # signing is negotiated (pyspnego's NTLM covers them in any case); frag_len / auth_len flips change framing and may block instead
+        signed_region = byte < 24 or tro <= byte < tro + 8
     if out.kind == "raise":
         probes["rejected"] = 1
     elif out.kind == "blocks":
@@ -425,6 +461,8 @@ def run(case) -> dict:
         probes["blocked_waiting_for_more_bytes"] = 1
     elif out.kind != "ok":
         viol = V(out.kind, "call neither returned nor raised")
+    elif signed_region:
+        viol = V("signed-header-or-trailer-bit-accepted", f"header signing is negotiated, bit {alter[1]} (byte {alter[1] // 8}) of the PDU header / security trailer was flipped in flight and the reply was still accepted")
     elif opname == "unprotect":
         if out.value != ot.plaintext:
             viol = V("wrong-plaintext", "unprotect returned bytes that differ from the authentic run")
@@ -468,7 +506,7 @@ class C16(common.Check):
                   "transport / entropy / clock": "simulated"}
     assumptions = ["outcome-based: a correct client may reject earlier or later or tolerate a change in an unprotected field, as long as the result equals the authentic one",
                    "pyspnego NTLM signs data_readonly buffers too, so 'header signing off' is only observable with StubCtx"]
-    required_fired = ("alter_strip", "alter_flip", "alter_lenfix", "alter_subst", "alter_replay", "alter_mitm-handshake", "alter_fragment", "alter_tworeq", "raw_request_level", "rejected")
+    required_fired = ("alter_strip", "alter_flip", "alter_lenfix", "alter_subst", "alter_replay", "alter_mitm-handshake", "alter_connect-flap", "alter_fragment", "alter_tworeq", "raw_request_level", "rejected")
 
     def exhaustive(self, tier):
         return tier == "thorough"
@@ -492,6 +530,7 @@ class C16(common.Check):
                         out.append([ctxname, "p256", opname, fl, ["fragment", "pub", fk]])
                     for kind in ("seed", "pub"):
                         out.append([ctxname, "p256", opname, fl, ["mitm-handshake", kind]])
+                        out.append([ctxname, "p256", opname, fl, ["connect-flap", kind]])
                     for s in range(3):
                         out.append([ctxname, "p256", opname, fl, ["subst", s]])
                     base = baseline(ctxname, "p256", opname, fl)
